@@ -49,9 +49,9 @@ def plan(tier, seed):
     if tier == "quick":
         return [dict(fam="lit", n=2, nmax=4),
                 dict(fam="lit", n=3, nmax=3, win=(seed, 12)),
-                dict(fam="kw", n=3, nmax=4), dict(fam="kw2", n=3, nmax=4)]
+                dict(fam="kw", n=3, nmax=4), dict(fam="kw2", n=3, nmax=3)]
     return [dict(fam="lit", n=3, nmax=4), dict(fam="kw", n=3, nmax=5),
-            dict(fam="kw2", n=3, nmax=5)]
+            dict(fam="kw2", n=3, nmax=4)]
 
 
 def units(tier, seed):
@@ -341,16 +341,27 @@ def kw2_unit(u):
         t1, t2 = pairs[pi]
         q1, _ = quote(t1)
         q2, _ = quote(t2)
+        forms = []
         for kw in KWREGEX:
-            text = (f"S: E*;\nE: {q1} | {q2} | id | any;\nterminals\n"
-                    f"KEYWORD: /{kw}/;\nid: /{ID}/;\nany: /[^x]/ {{5}};\n")
+            tail = f"KEYWORD: /{kw}/;\nid: /{ID}/;\nany: /[^x]/ {{5}};\n"
+            forms.append((kw, "inline", {},
+                          f"S: E*;\nE: {q1} | {q2} | id | any;\nterminals\n"
+                          + tail))
+            # declared, with rule names whose lengths contradict the texts'
+            for n1, n2 in (("SHORT_TEXT_LONG_NAME", "L"), ("A", "LONGER_NAME"),
+                           ("T1", "T0")):
+                forms.append((kw, f"declared:{n1},{n2}", {n1: t1, n2: t2},
+                              f"S: E*;\nE: {n1} | {n2} | id | any;\nterminals\n"
+                              f"{n1}: {q1};\n{n2}: {q2};\n" + tail))
+        for kw, form, names, text in forms:
             for ic in (False, True):
                 case = {"grammar": text, "text": [t1, t2], "keyword_regex": kw,
+                        "form": form,
                         "ignore_case": ic, "parser": "lr",
                         "options": {"ws": "", "build_tree": True}}
                 try:
                     g = grammar_from_string(text, ignore_case=ic)
-                    p = build("lr", g, mon, tag=(pi, kw, ic), ws="",
+                    p = build("lr", g, mon, tag=(pi, kw, ic, form), ws="",
                               build_tree=True)
                 except (Exception, BudgetExceeded) as e:    # noqa: BLE001
                     judge.deviation("KEYWORD-GRAMMAR-REJECTED", "kw2",
@@ -366,12 +377,13 @@ def kw2_unit(u):
                     st["evaluations"] += 1
                     if t1 in s_:
                         st["nontrivial"] += 1
-                    got = ([(n, v) for n, v in leaves_of(o.value)] if s_ else []) \
+                    got = ([(names.get(n, n), v)
+                            for n, v in leaves_of(o.value)] if s_ else []) \
                         if o.kind == "ok" else o.brief()
                     if got != want:
                         judge.deviation(
                             "KEYWORD-MATCHING", "kw2",
-                            f"{t1}|{t2}|{kw}|ic={int(ic)}", s_,
+                            f"{t1}|{t2}|{kw}|ic={int(ic)}|{form}", s_,
                             "token sequence differs from literal matching "
                             "with the whole-word rule and longest string match",
                             {"got": str(got)[:200], "want": str(want)[:200]},
